@@ -54,7 +54,7 @@ PROPS = {
     "C05": hist(300, 200, 700, 400, small_enum=True, assumptions=[RFC_ASSUME, "session-matrix and constructor observations use an optional white-box probe (harness/probe_ldpc.c); without it only the black-box encoder observation remains"]),
     "C09": hist(1000, 200, 12000, 300, assumptions=[PROTO_ASSUME, "behaviour under allocation failure is not judged: 2^32-1 byte symbols are only offered to sessions that allocate nothing of that size at configuration time", "MAX_K/MAX_N for LDPC taken as 50000 (OF_CTRL_GET_MAX_K/N answers are compared with it)"]),
     "C12": hist(500, 200, 4000, 300, small_enum=True, assumptions=[PROTO_ASSUME, "same thread only, as the property states; pointer values and library stdout are excluded from the traces"]),
-    "C15": hist(600, 200, 2000, 400, small_enum=True, assumptions=[RFC_ASSUME, LIN_ASSUME]),
+    "C15": hist(600, 200, 1200, 400, small_enum=True, assumptions=[RFC_ASSUME, LIN_ASSUME]),
     "C10": hist(2500, 200, 12000, 400, small_enum=True, fuzz=150000, assumptions=[RFC_ASSUME, PROTO_ASSUME]),
     "C11": hist(2500, 200, 12000, 400, small_enum=True, fuzz=150000, assumptions=[PROTO_ASSUME, "callback order within one API call is unspecified and not compared"]),
 }
